@@ -96,52 +96,61 @@ deriving Repr, BEq
 
 def ceilR (x : Rat) : Rat := (x.ceil : Rat)
 
+/-- the label part of `GetMargin` for an outside label at (`side`, `al`) of padded size `lw × lh` on a `w × h` object -/
+def labelMargin (side : Side) (al : Align) (lw lh w h : Rat) : Margin :=
+  let m0 : Margin := ⟨0, 0, 0, 0⟩
+  let a : Margin :=
+    match side with
+    | .top => { m0 with top := lh }
+    | .bottom => { m0 with bottom := lh }
+    | .left => { m0 with left := lw }
+    | .right => { m0 with right := lw }
+  let b : Margin :=
+    if lw > w then
+      let dx := lw - w
+      match side, al with
+      | .top, .first | .bottom, .first => { a with right := dx }
+      | .top, .middle | .bottom, .middle => { a with left := ceilR (dx / 2), right := ceilR (dx / 2) }
+      | .top, .last | .bottom, .last => { a with left := dx }
+      | _, _ => a
+    else a
+  if lh > h then
+    let dy := lh - h
+    match side, al with
+    | .left, .first | .right, .first => { b with bottom := dy }
+    | .left, .middle | .right, .middle => { b with top := ceilR (dy / 2), bottom := ceilR (dy / 2) }
+    | .left, .last | .right, .last => { b with top := dy }
+    | _, _ => b
+  else b
+
+/-- the icon part: an outside icon needs at least `sz` on its side -/
+def iconMargin (pos : Option (Side × Align)) (sz : Rat) (m1 : Margin) : Margin :=
+  match pos with
+  | some (.top, _) => { m1 with top := max m1.top sz }
+  | some (.bottom, _) => { m1 with bottom := max m1.bottom sz }
+  | some (.left, _) => { m1 with left := max m1.left sz }
+  | some (.right, _) => { m1 with right := max m1.right sz }
+  | none => m1
+
+/-- `if obj.HasLabel() && obj.LabelPosition != nil { … }` -/
+def labelPart (d : Deco) (w h : Rat) : Margin :=
+  match d.hasLabel, d.labelPos with
+  | true, some ps =>
+    match outsidePos ps with
+    | none => ⟨0, 0, 0, 0⟩
+    | some (side, al) =>
+      labelMargin side al ((d.lw + D2V.Gen.Grid.labelPadding : Int) : Rat) ((d.lh + D2V.Gen.Grid.labelPadding : Int) : Rat) w h
+  | _, _ => ⟨0, 0, 0, 0⟩
+
+/-- `if obj.HasIcon() && obj.IconPosition != nil { … }` -/
+def iconPart (d : Deco) (m1 : Margin) : Margin :=
+  match d.hasIcon, d.iconPos with
+  | true, some ps => iconMargin (outsidePos ps) (maxIconSize + labelPadding) m1
+  | _, _ => m1
+
 /-- `obj.GetMargin()` for an object of size `w × h` -/
 def margin (d : Deco) (w h : Rat) : Margin :=
-  let m0 : Margin := ⟨0, 0, 0, 0⟩
-  let m1 : Margin :=
-    match d.hasLabel, d.labelPos with
-    | true, some ps =>
-      match outsidePos ps with
-      | none => m0
-      | some (side, al) =>
-        let lw : Rat := ((d.lw + D2V.Gen.Grid.labelPadding : Int) : Rat)
-        let lh : Rat := ((d.lh + D2V.Gen.Grid.labelPadding : Int) : Rat)
-        let a : Margin :=
-          match side with
-          | .top => { m0 with top := lh }
-          | .bottom => { m0 with bottom := lh }
-          | .left => { m0 with left := lw }
-          | .right => { m0 with right := lw }
-        let b : Margin :=
-          if lw > w then
-            let dx := lw - w
-            match side, al with
-            | .top, .first | .bottom, .first => { a with right := dx }
-            | .top, .middle | .bottom, .middle => { a with left := ceilR (dx / 2), right := ceilR (dx / 2) }
-            | .top, .last | .bottom, .last => { a with left := dx }
-            | _, _ => a
-          else a
-        if lh > h then
-          let dy := lh - h
-          match side, al with
-          | .left, .first | .right, .first => { b with bottom := dy }
-          | .left, .middle | .right, .middle => { b with top := ceilR (dy / 2), bottom := ceilR (dy / 2) }
-          | .left, .last | .right, .last => { b with top := dy }
-          | _, _ => b
-        else b
-    | _, _ => m0
-  let m2 : Margin :=
-    match d.hasIcon, d.iconPos with
-    | true, some ps =>
-      let sz := maxIconSize + labelPadding
-      match outsidePos ps with
-      | some (.top, _) => { m1 with top := max m1.top sz }
-      | some (.bottom, _) => { m1 with bottom := max m1.bottom sz }
-      | some (.left, _) => { m1 with left := max m1.left sz }
-      | some (.right, _) => { m1 with right := max m1.right sz }
-      | none => m1
-    | _, _ => m1
+  let m2 := iconPart d (labelPart d w h)
   { m2 with right := m2.right + d.modDx, top := m2.top + d.modDy }
 
 /-! ### lines -/
